@@ -279,6 +279,13 @@ def r5(ck, F):
             n = sum(1 for c in p.calls if is_on_event(c[1]))
             if n > 1:
                 ok, why = False, "%d lifecycle events emitted on one path" % n
+            # and conversely: a path on which the flag tested true (and never false) must emit. (The flag accessor is pure;
+            # paths that take one of its tests true and another false are infeasible.)
+            ft = [c[1] != 0 for c in p.conds if show(c[0]).startswith(flag + "(")]
+            if ft and all(ft) and n == 0 and not any(is_on_event(t["callee"]) for x in bodies if x is not b for bb, t in x.calls() if any(
+                    c[1].get("resolved") == x.path for c in p.calls)):
+                other = [(show(c[0])[:50], c[1]) for c in p.conds if not show(c[0]).startswith(flag + "(")]
+                ok, why = False, "with fmt_span.%s() set a path returns without emitting the lifecycle event (other conditions on that path: %s)" % (flag, other[-3:])
         if ok:
             ck.ok("C13.R5", "%s emits its lifecycle event once, iff %s" % (m, flag), fn=b.path)
         else:
